@@ -219,6 +219,9 @@ func parseUpdateInterval(config *config.CRLConfig) error {
 		if err != nil {
 			return err
 		}
+		if duration <= 0 {
+			return fmt.Errorf("update_interval must be greater than zero: %s", config.UpdateInterval)
+		}
 		config.UpdateIntervalParsed = duration
 	} else {
 		config.UpdateIntervalParsed = defaultCRLUpdateInterval
